@@ -7,7 +7,8 @@ namespace Charset
 
 /-- The current tree with the mess detector *and* the coherence detector inside the model:
     `mess` = `Md.messRatio` over `menv`, `coh` = `Coh.coherenceRatio` over `cenv` and the dumped tables,
-    `merge` = `mergeModel`; only the CJK decoders remain oracle-answered. -/
+    `merge` = `mergeModel`; the decoders of every supported encoding are Lean definitions too (Model/Cjk.lean for the
+    multi-byte legacy ones), so the oracle argument is never consulted (Props/C11c.lean proves it irrelevant). -/
 def worldFull (menv : Md.MdEnv) (cenv : Coh.CohEnv) (o : Oracle) : World Name Name :=
   { worldNow o with
     mess := messGuarded menv
